@@ -70,6 +70,29 @@ MISSED = {
     "C16-6": "writes beyond the end of a sequence (padding elements)",
     "C17-6": "boundary code points (U+FFFD ...)",
     "C19-5": "malformed spot between the documents of a JSON stream",
+    "C01-7": "reduce loop variables re-using a name in scope, read right after the reduce (added after reading the delivery note, before the first evaluation)",
+    "C01-8": "minimal-bracket spelling observed next to the bracketed one (added after reading the delivery note, before the first evaluation)",
+    "C02-7": "`eaunion` law: eval-all over two documents, left-hand side = the same path in each",
+    "C02-8": "JSON decoder variant (null array elements)",
+    "C03-7": "JSON decoder variant",
+    "C03-8": "`exploded` family: deletes of entries that came in through merge keys",
+    "C04-7": "empty-string keys",
+    "C06-7": "anchor names defined again (aliases bind to the latest definition)",
+    "C07-7": "line family: maps with complex keys inside lists that an append rebuilds",
+    "C07-8": "line family: several deletes written out of document order",
+    "C08-7": "anchored family: from_entries over entries without a value",
+    "C08-8": "anchored family: with_entries bodies reading missing keys through alias values",
+    "C09-7": "prefix-function family: `del(.a).b`, `join(..)[1]`",
+    "C09-8": "interpolation family: brackets inside the 2nd, 3rd ... interpolation of a literal",
+    "C10-8": "family O6: encoder state across documents (every output format, leading comment on the first)",
+    "C11-8": "deep equality over aliases after attribute rewrites / on self-containing anchors",
+    "C13-8": "partial explode of anchor-free sub-trees must leave a readable document; anchored scalars inside anchored maps",
+    "C15-8": "min / max with nulls strewn into a single-class pool",
+    "C16-7": "XML-decoded documents",
+    "C16-8": "`parent` must be the container found at the parent's path (value compared, not just the path)",
+    "C17-8": "all strings through one `@sh` call",
+    "C19-7": "malformed CSV / TSV records",
+    "C19-8": "first input without an extension / stdin followed by a file with one",
 }
 REGRESSED = {
     "C11-1": "caught when delivered (4 violation lines), lost when the generator grew (0 of 40 k cases), caught again after reversed slices were made denser and the quick tier raised to 100 k cases",
@@ -108,7 +131,7 @@ for name in sorted(os.listdir(src)):
     for f in os.listdir(d):
         if f in ("patch.diff", "demo.sh") or f.endswith("_test.go"):
             shutil.copy(os.path.join(d, f), os.path.join(out, f))
-    rnd = {"1": 1, "2": 1, "3": 2, "4": 2}.get(name[-1], 3)
+    rnd = {"1": 1, "2": 1, "3": 2, "4": 2, "5": 3, "6": 3}.get(name[-1], 4)
     new = {
         "id": name,
         "property": meta.get("property", name[:3]),
